@@ -1,7 +1,7 @@
 mod bins;
 mod metadata;
 
-use tokio::io::{self, AsyncWrite};
+use tokio::io::{self, AsyncWrite, AsyncWriteExt};
 
 use self::{bins::write_bins, metadata::write_metadata};
 use crate::binning_index::{
@@ -17,6 +17,10 @@ pub(super) async fn write_reference_sequences<W>(
 where
     W: AsyncWrite + Unpin,
 {
+    let n_ref = i32::try_from(reference_sequences.len())
+        .map_err(|e| io::Error::new(io::ErrorKind::InvalidInput, e))?;
+    writer.write_i32_le(n_ref).await?;
+
     for reference_sequence in reference_sequences {
         write_reference_sequence(writer, depth, reference_sequence).await?;
     }
